@@ -263,9 +263,9 @@ func main() {
 		}
 		run.Finish()
 	}
-	maxLen, depth, seedDepth := 5, 5, 3
+	maxLen, depth, seedDepth := 8, 5, 3
 	if !run.Quick() {
-		maxLen, depth, seedDepth = 7, 6, 3
+		maxLen, depth, seedDepth = 10, 6, 3
 	}
 	report := func(st seqx.Stats, maxLen int, what string) {
 		run.AddCounts(st.States, st.Transitions, st.Transitions)
